@@ -279,6 +279,10 @@ class CellConversion:
                                                   union_ids)
                 arg_ids.append(t4_cell_id)
 
+            if any(arg_id is None for arg_id in arg_ids):
+                # intersection with an empty cell: this volume is empty, too
+                return None
+
             ops = self.conv_intersection(*arg_ids)
 
             self.dic_vol_t4[p_id] = VolumeT4(pluses=pluses, minuses=minuses,
@@ -298,6 +302,11 @@ class CellConversion:
                                                   union_ids)
                 arg_ids.append(t4_cell_id)
 
+            # empty cells do not contribute to the union
+            arg_ids = [arg_id for arg_id in arg_ids if arg_id is not None]
+            if not arg_ids:
+                return None
+
             pluses, minuses, ops = self.conv_union_helpers(*arg_ids,
                                                            union_ids=union_ids)
         else:
@@ -311,6 +320,8 @@ class CellConversion:
                 t4_cell_id = self.convert_cellref(cellref.cell, matching,
                                                   union_ids)
                 arg_ids.append(t4_cell_id)
+            # empty cells do not contribute to the union
+            arg_ids = [arg_id for arg_id in arg_ids if arg_id is not None]
             ops = self.conv_union(*arg_ids)
         self.dic_vol_t4[p_id] = VolumeT4(pluses=pluses, minuses=minuses,
                                          ops=ops, idorigin=idorigin)
